@@ -73,7 +73,9 @@ THEOREMS_TREE = [
     "OllamaVerif.C17.chatR_go",
     "OllamaVerif.C17.oaStreamFixed_eq_pinned",
     "OllamaVerif.C17.openai_stream_once_agree",
-    "OllamaVerif.C17.openai_finish_agree",
+    "OllamaVerif.C17.oaChatStreamFF_erase",
+    "OllamaVerif.C17.openai_chat_stream_equiv_FF",
+    "OllamaVerif.C17.openai_finish_agree_FF",
     "OllamaVerif.C17.openai_once_equiv",
     "OllamaVerif.C17.openai_chat_stream_equiv",
     "OllamaVerif.C17.openai_cmpl_stream_equiv",
@@ -107,6 +109,7 @@ THEOREMS_HISTORICAL_OR_PATCH = [
     "OllamaVerif.C17.F17d_silent_end_no_final",
     "OllamaVerif.C17.F17e_client_drops_long_reply",
     "OllamaVerif.C17.finish_reason_on_done_chunk",       # before F17f (9e8f7fa39)
+    "OllamaVerif.C17.openai_finish_agree",               # the writer before F17f: agreement needed an empty final message
     "OllamaVerif.C17.tools_equiv_fixed",                # C17-F17ab.patch, not in /repo
     "OllamaVerif.C17.tools_equiv_fixed_monotone",
 ]
